@@ -85,7 +85,14 @@ RULE = ("case = environment (sync or async, autoescape on/off) with 3 generated 
         "i18n) gettext; zprobe.j2 calls them through import / from-import / an included importer and "
         "is rendered after EVERY fault, before the main templates; + data "
         "recipe; fault point = (target template, API in {render, generate, stream | render_async, "
-        "generate_async, render-via-asyncio.run}, k) for EVERY k <= N events of the clean run in the "
+        "generate_async, render-via-asyncio.run}, k) + RAISE SHAPE (how the data code raises its "
+        "exception object, fixed per fault point by k: 5 of 11 points a bare raise; 1 of 11 each: "
+        "`raise X from e` with a low-level error e that was itself raised and caught (KeyError / "
+        "AttributeError / TypeError / ValueError / OSError / IndexError / RuntimeError by turns), a "
+        "cause chain of 2, a cause that was never raised, raised while handling a low-level error "
+        "(implicit __context__), `from None` inside a handler, re-raise of a kept exception object "
+        "that already carries a traceback; the caller must get the raised object, never its cause / "
+        "context) for EVERY k <= N events of the clean run in the "
         "warmed-up environment, PLUS for the first render in a BRAND-NEW environment (own environment "
         "per fault point): every event inside an imported / included-without-context template body "
         "a few inside scoped constructs of slib.j2 and a few others; after each fault the sentinel "
@@ -104,7 +111,9 @@ LEVEL_TEXT = ("held on every enumerated fault point of the generated templates (
 ASSUMPTIONS = [
     "the injected exception is a private Exception subclass instance (not one of the documented "
     "lookup signals AttributeError / LookupError / TypeError / StopIteration, which are never "
-    "injected)",
+    "injected); the low-level errors used as its __cause__ / __context__ in the chained raise shapes "
+    "are of those classes among others, but they are caught by the data code itself and never "
+    "reach the engine as the raised exception",
     "events on the subjects of capability tests (`is sequence`, `is iterable`) may either "
     "propagate the same object or be reported as false (documented exception)",
     "every attribute lookup by name that reaches a data object's __getattribute__ while a render is "
@@ -142,6 +151,19 @@ ASSUMPTIONS = [
 ]
 NSHARDS = {"quick": 16, "thorough": 16}
 BUDGET_S = {"quick": 10, "thorough": 420}
+# (quick run at load: 9.6k plain, 1.9-2.1k per other shape, 11.6k chained = 6.8k sync + 4.9k async)
+RAISE_SHAPE_FLOORS = {
+    "quick": {"faults_raised_chained_or_reraised": 2000,
+              "faults_raised_chained_or_reraised_sync": 1100,
+              "faults_raised_chained_or_reraised_async": 800,
+              **{"fault_raise_shape:" + s: 350 for s in P.RAISE_SHAPES},
+              "fault_raise_shape:plain": 1600},
+    "thorough": {"faults_raised_chained_or_reraised": 70000,
+                 "faults_raised_chained_or_reraised_sync": 35000,
+                 "faults_raised_chained_or_reraised_async": 30000,
+                 **{"fault_raise_shape:" + s: 12000 for s in P.RAISE_SHAPES},
+                 "fault_raise_shape:plain": 60000},
+}
 FLOORS = {
     "quick": {"evaluations": 3000, "distinct": 3000,
               "counters": {"faults_fired": 3000, "identity_checks": 3000,
@@ -180,7 +202,9 @@ FLOORS = {
                            "fault_event:probe:__aiter__": 5,
                            "cases_sandboxed": 4, "faults_in_sandboxed_environment": 800,
                            "fault_event:probe:unsafe_callable": 40,
-                           "fault_event:probe:alters_data": 40}},
+                           "fault_event:probe:alters_data": 40,
+                           # raise shapes: how the data code raises the exception object
+                           **RAISE_SHAPE_FLOORS["quick"]}},
     "thorough": {"evaluations": 170000, "distinct": 170000,
                  "counters": {"faults_fired": 170000, "identity_checks": 170000,
                               "post_fault_renders": 500000, "cases": 400,
@@ -216,7 +240,8 @@ FLOORS = {
                               "fault_event:probe:__aiter__": 110,
                               "cases_sandboxed": 30, "faults_in_sandboxed_environment": 22000,
                               "fault_event:probe:unsafe_callable": 1000,
-                              "fault_event:probe:alters_data": 1000}},
+                              "fault_event:probe:alters_data": 1000,
+                              **RAISE_SHAPE_FLOORS["thorough"]}},
 }
 
 SYNC_APIS = ["render", "generate", "stream"]
@@ -314,9 +339,9 @@ class CaseEnv:
             parts.append(str(obj(*[SH.resolve_arg(a, data) for a in args])))
         return SH.SEG.join(parts)
 
-    def run(self, name, api, fault_at=None):
+    def run(self, name, api, fault_at=None, shape="plain"):
         """-> (kind, value, events)."""
-        ev = self.ev = P.Events(fault_at)
+        ev = self.ev = P.Events(fault_at, shape)
         data = P.build(self.recipe, ev, self.is_async)
         t = None if name == SH.MODULE_TARGET else self.env.get_template(name)
         self.proxy.cur = ev
@@ -347,13 +372,24 @@ class CaseEnv:
             self.proxy.cur = None
 
 
+def raise_shape_of(case, target, k):
+    """How the data raises its exception at fault point k: 5 of 11 points a bare
+    ``raise Boom()``, the other 6 one raise shape each (11 is coprime to the API / sampling
+    rotations over k, so every shape meets every API and event kind)."""
+    tl = post_targets(case)
+    ti = tl.index(target) if target in tl else 0
+    j = (k + 4 * ti) % 11
+    return P.RAISE_SHAPES[j - 4] if j >= 5 else "plain"
+
+
 def check_fault(ctx, ce, clean, target, api, k, fresh=False):
     """One fault point.  clean: {name: output}.  fresh: ce is a brand-new
     environment (nothing rendered / imported in it yet)."""
     case = ce.case
+    shape = raise_shape_of(case, target, k)
     rcase = {"case": case, "recipe": ce.recipe, "target": target, "api": api, "k": k,
-             "fresh": bool(fresh)}
-    kind, val, ev = ce.run(target, api, fault_at=k)
+             "fresh": bool(fresh), "raise_shape": shape}
+    kind, val, ev = ce.run(target, api, fault_at=k, shape=shape)
     ctx.ev()
     if not ev.fired:
         # the faulted run did not reach event k: the clean run was not reproducible
@@ -361,6 +397,12 @@ def check_fault(ctx, ce, clean, target, api, k, fresh=False):
         return
     ctx.count("faults_fired")
     ctx.count("faults_async" if ce.is_async else "faults_sync")
+    # how the data code raised the exception object (chained / re-raised / bare)
+    ctx.count("fault_raise_shape:" + shape)
+    if shape != "plain":
+        ctx.count("faults_raised_chained_or_reraised")
+        ctx.count("faults_raised_chained_or_reraised_" + ("async" if ce.is_async else "sync"))
+        ctx.count("fault_raise_shape_x_api:%s:%s" % (shape.split(":")[0], api))
     if case.get("sandbox"):
         ctx.count("faults_in_sandboxed_environment")
     if ev.fired_kind.startswith("probe:"):
@@ -419,9 +461,9 @@ def check_fault(ctx, ce, clean, target, api, k, fresh=False):
                       % (k, ev.fired_kind, ev.fired_label, api, val[:200], tsrc[:500]), rcase)
     else:
         ctx.violation("not-same-object:%s:%s" % (where, type(val).__name__),
-                      "data raised %r at event %d (%s, fragment %r) but %s() raised a different "
-                      "object %r (cause=%r context=%r); template %r"
-                      % (ev.boom, k, ev.fired_kind, ev.fired_label, api, val,
+                      "data raised %r (raise shape: %s) at event %d (%s, fragment %r) but %s() "
+                      "raised a different object %r (cause=%r context=%r); template %r"
+                      % (ev.boom, shape, k, ev.fired_kind, ev.fired_label, api, val,
                          getattr(val, "__cause__", None), getattr(val, "__context__", None),
                          tsrc[:500]), rcase)
     # the engine must still be usable.  First the sentinels of every module that is
